@@ -32,19 +32,33 @@ def gen_cases(ck):
         c["_meta"] = meta
         cases.append(c)
 
+    # -- corpus: witnesses of REPAIRED defects run first and must pass (else VIOLATION regression:<id>)
+    import c13_corpus
+    for w in c13_corpus.REGRESSIONS:
+        add("corpus_regression", w)
+
     # -- analyze: valid expressions x environments
-    for _ in range(ck.n(1200, 12000)):
+    for _ in range(ck.n(1200, 40000)):
         syms = g.syms(rng.choice([1, 2, 2, 3, 4]))
         env = g.env(syms)
         e = g.expr(syms, rng.choice([1, 2, 3, 3, 4, 5]))
         add("analyze", {"kind": "analyze", "env": env, "expr": e,
                         "envtype": "dict" if len(env) == 1 and rng.random() < 0.5 else "chainmap"})
+    # -- analyze, systematic: every expression with at most two operators over a small alphabet x 5 environments
+    small = small_exprs()
+    if not ck.thorough:
+        small = rng.sample(small, 400)
+    envs5 = [[[]], [[[1, 100, 0, 3]]], [[[1, 100, -2, None], [2, 101, None, 4]]], [[[1, 100, None, None]], [[2, 101, 1, 1]]],
+             [[[1, 100, 2, 9], [2, 101, -3, 5]]]]
+    for e in small:
+        for env in (envs5 if ck.thorough else [rng.choice(envs5)]):
+            add("analyze_small", {"kind": "analyze", "env": env, "expr": e, "envtype": "chainmap"})
     # -- malformed: range*range, division by a range, c <= 0
-    for _ in range(ck.n(400, 4000)):
+    for _ in range(ck.n(400, 12000)):
         syms = g.syms(rng.choice([1, 2, 3]))
         add("malformed", {"kind": "analyze", "env": g.env(syms), "expr": g.expr(syms, rng.choice([1, 2, 3, 4]), True)})
     # -- operator protocol on raw values (incl. the ValueError object)
-    for _ in range(ck.n(300, 3000)):
+    for _ in range(ck.n(300, 10000)):
         syms = g.syms(2)
         if rng.random() < 0.12:
             add("protocol", {"kind": "uneg", "a": g.rv(syms, True)})
@@ -54,7 +68,7 @@ def gen_cases(ck):
                 b = ["int", rng.choice([-3, -1, 0, 0, 1, 2, 4, 5])]
             add("protocol", {"kind": "binop", "op": rng.choice(G.OPS), "a": g.rv(syms, True), "b": b})
     # -- constant_bound / check_expr_bound(s)
-    for _ in range(ck.n(500, 5000)):
+    for _ in range(ck.n(500, 16000)):
         syms = g.syms(rng.choice([1, 2, 3]))
         env = g.env(syms)
         k = rng.random()
@@ -73,14 +87,14 @@ def gen_cases(ck):
                                      "c": ["int", rng.choice([1, 2, 4, 8, 16, 3])]})
     # -- _check_range on raw pairs (small exhaustive-ish grid)
     vals = [None, -1, 0, 1, 2]
-    for _ in range(ck.n(200, 1500)):
+    for _ in range(ck.n(200, 3000)):
         add("check_range", {"kind": "crange", "r0": [rng.choice(vals), rng.choice(vals)],
                             "op": rng.choice(["lt", "leq", "eq"]), "r1": [rng.choice(vals), rng.choice(vals)]})
     # -- IndexRangeEnvironment life cycle
-    for _ in range(ck.n(300, 3000)):
+    for _ in range(ck.n(300, 10000)):
         add("environment", gen_envseq(g, rng))
     # -- join
-    for _ in range(ck.n(300, 3000)):
+    for _ in range(ck.n(300, 10000)):
         syms = g.syms(2, shadow=rng.random() < 0.3)
         n = rng.choice([2, 2, 3, 4])
         rs = []
@@ -89,12 +103,14 @@ def gen_cases(ck):
             r = g.rv(syms, allow_err=(rng.random() < 0.05))
             if isinstance(r, list) and r[0] == "range" and rng.random() < 0.6:
                 r[1] = common_base
+                if rng.random() < 0.15:  # same NAMES, different Syms (LoopIR_Compare cannot tell them apart)
+                    r[1] = rename_ids(common_base, 1000)
             if isinstance(r, list) and r[0] == "int":
                 r = ["range", ["c", 0], r[1], r[1]]
             rs.append(r)
         add("join", {"kind": "orchain", "rs": rs})
     # -- get_stride_of / partial_eval_with_range / get_size / wrapper
-    for _ in range(ck.n(300, 3000)):
+    for _ in range(ck.n(300, 10000)):
         syms = g.syms(rng.choice([1, 2, 3]))
         k = rng.random()
         base = g.linear(syms, with_divmod=rng.random() < 0.15)
@@ -118,12 +134,45 @@ def gen_cases(ck):
         else:
             add("fold_helpers", {"kind": "wrapper", "expr": g.expr(syms, 3, malformed=rng.random() < 0.2)})
     # -- user level: Procedures built from LoopIR trees
-    for _ in range(ck.n(150, 1500)):
+    for _ in range(ck.n(150, 5000)):
         add("user_ir", gen_user_tree(g, rng))
     # -- user level: real @proc sources through the front end
-    for src in user_sources(rng, ck.n(10, 40)):
+    for src in user_sources(rng, ck.n(10, 80)):
         add("user_src", {"kind": "user", "mode": "src", "src": src})
     return cases
+
+
+def small_exprs():
+    """all index expressions with <= 2 operators over {i, j, -2, 0, 1, 3}, divisors {2, 3} (valid stream)"""
+    i, j = ["v", 1, 100], ["v", 2, 101]
+    consts = [["c", -2], ["c", 0], ["c", 1], ["c", 3]]
+    leaves = [i, j] + consts
+
+    def step(subs):
+        out = []
+        for a in subs:
+            out.append(["neg", a])
+            for d in (2, 3):
+                out.append(["b", "div", a, ["c", d]])
+                out.append(["b", "mod", a, ["c", d]])
+            for c in consts:
+                out.append(["b", "mul", a, c])
+                out.append(["b", "mul", c, a])
+            for b in leaves:
+                out.append(["b", "add", a, b])
+                out.append(["b", "sub", a, b])
+                out.append(["b", "sub", b, a])
+        return out
+
+    d1 = step(leaves)
+    d2 = step(d1)
+    seen, out = set(), []
+    for e in d1 + d2:
+        k = json.dumps(e)
+        if k not in seen:
+            seen.add(k)
+            out.append(e)
+    return out
 
 
 def gen_envseq(g, rng):
@@ -313,6 +362,22 @@ def user_jobs(tree, buf="x"):
 
 
 # ============================================================================= search oracles
+HITS = {}      # violation class -> number of failing inputs found (known findings included)
+MAX_NEW_PER_CLASS = 3
+EVALS = [0]    # concrete evaluations performed by the search
+
+
+def report(ck, cls, c, replay, what):
+    """one failing input of class `cls`; known findings are filtered by ck.violation, new ones are capped"""
+    if c.get("_regress"):  # witness of a REPAIRED defect failing again: never a known finding
+        cls = "regression:%s" % c["_regress"]
+    key = key_of(cls, c)
+    HITS[cls] = HITS.get(cls, 0) + 1
+    if ck.match_known(key) is not None or sum(1 for v in ck.violations if v["key"].startswith(cls + ":")) \
+            < MAX_NEW_PER_CLASS:
+        ck.violation(key, replay, what)
+
+
 def key_of(prefix, c):
     import hashlib
     payload = {k: v for k, v in c.items() if not k.startswith("_")}
@@ -343,8 +408,9 @@ def search_analyze(ck, c, res_s):
         if v is None:
             continue
         n += 1
+        EVALS[0] += 1
         if G.in_result(res, v, val) is False:
-            ck.violation(key_of("analyze:value-outside-range", c),
+            report(ck, "analyze:value-outside-range", c,
                          {"call": "exo.rewrite.range_analysis.index_range_analysis(expr, env)", "expr": e,
                           "env": c["env"], "returned": res_s, "valuation": {"%d_%d" % k: x for k, x in val.items()},
                           "value": v},
@@ -384,7 +450,7 @@ def search_check(ck, c, res_s):
             continue
         ok = CMPF[c["op"]](vs[0], vs[1]) and (c["kind"] == "check" or CMPF[c["op2"]](vs[1], vs[2]))
         if not ok:
-            ck.violation(key_of("check_expr_bound:true-but-false", c),
+            report(ck, "check_expr_bound:true-but-false", c,
                          {"call": "IndexRangeEnvironment.check_expr_bound(s)", "case": {k: v for k, v in c.items()
                                                                                        if not k.startswith("_")},
                           "valuation": {"%d_%d" % k: x for k, x in val.items()}, "values": vs},
@@ -434,7 +500,7 @@ def search_envseq(ck, c, res_s):
                     continue
                 x = val[k]
                 if (b[0] is not None and x < b[0]) or (b[1] is not None and x > b[1]):
-                    ck.violation(key_of("environment:value-outside-range", c),
+                    report(ck, "environment:value-outside-range", c,
                                  {"call": "IndexRangeEnvironment.add_loop_iter", "ops": c["ops"], "sizes": c["sizes"],
                                   "symbol": list(k), "recorded": list(b), "valuation": {"%d_%d" % kk: v for kk, v in
                                                                                         val.items()}},
@@ -444,7 +510,7 @@ def search_envseq(ck, c, res_s):
             if qv is not None and isinstance(qb, list) and len(qb) == 2:
                 lo, hi = G.parse_opt(qb[0]), G.parse_opt(qb[1])
                 if (lo is not None and qv < lo) or (hi is not None and qv > hi):
-                    ck.violation(key_of("environment:constant_bound", c),
+                    report(ck, "environment:constant_bound", c,
                                  {"call": "constant_bound under IndexRangeEnvironment", "ops": c["ops"],
                                   "q": c["q"], "returned": qb, "value": qv,
                                   "valuation": {"%d_%d" % kk: v for kk, v in val.items()}},
@@ -485,27 +551,46 @@ def rv_values(r, val, rng):
     return [b + x for x in G.sample_interval(r[2], r[3], rng, k=3)]
 
 
-def join_partial_hyp(rs):
-    """hypotheses of Props_C13.C13_join_partial for every step of the chain (computed on the operands)"""
-    def nm(e):
-        return json.dumps(strip_ids(e))
+def names_clash_syms(syms):
+    """two different Syms with one name (the hypothesis of C13_join / C13_bounds_inference_partial fails)"""
+    byname = {}
+    for (n, i) in syms:
+        byname.setdefault(n, set()).add(i)
+    return any(len(v) > 1 for v in byname.values())
 
-    acc = rs[0]
-    for r in rs[1:]:
-        if acc == "errv" or r == "errv":
-            return True
-        same_name = nm(acc[1]) == nm(r[1])
-        if same_name and acc[1] != r[1]:
-            return False  # LoopIR_Compare matches by name only
-        if not same_name:
-            acc = ["range", ["c", 0], None, None]
-            continue
-        if (acc[2] is None) != (r[2] is None) or (acc[3] is None) != (r[3] is None):
-            return False
-        lo = None if acc[2] is None else min(acc[2], r[2])
-        hi = None if acc[3] is None else max(acc[3], r[3])
-        acc = ["range", acc[1], lo, hi]
-    return True
+
+def join_names_clash(rs):
+    syms = []
+    for r in rs:
+        if r != "errv" and r[0] == "range":
+            syms.extend(G.vars_of(r[1]))
+    return names_clash_syms(syms)
+
+
+def tree_syms(nodes, acc=None):
+    acc = [] if acc is None else acc
+    for nd in nodes:
+        if nd[0] == "for":
+            acc.append((nd[1], nd[2]))
+            acc.extend(G.vars_of(nd[3]) + G.vars_of(nd[4]))
+            tree_syms(nd[5], acc)
+        elif nd[0] == "if":
+            tree_syms(nd[1], acc)
+            tree_syms(nd[2], acc)
+        elif nd[0] == "acc":
+            for e in nd[2]:
+                acc.extend(G.vars_of(e))
+    return acc
+
+
+def rename_ids(e, off):
+    if e[0] == "v":
+        return ["v", e[1], e[2] + off]
+    if e[0] == "c":
+        return e
+    if e[0] == "neg":
+        return ["neg", rename_ids(e[1], off)]
+    return ["b", e[1], rename_ids(e[2], off), rename_ids(e[3], off)]
 
 
 def strip_ids(e):
@@ -536,8 +621,8 @@ def search_join(ck, c, res_s):
         for r in c["rs"]:
             for v in rv_values(r, val, ck.rng):
                 if G.in_result(res, v, val) is False:
-                    cls = "join:none-or-name" if not join_partial_hyp(c["rs"]) else "join:unexpected"
-                    ck.violation(key_of(cls, c),
+                    cls = "join:name-only-base-match" if join_names_clash(c["rs"]) else "join:unexpected"
+                    report(ck, cls, c,
                                  {"call": "IndexRange.__or__ (chain a | b | ...)", "operands": c["rs"],
                                   "returned": res_s, "operand": r, "value": v,
                                   "valuation": {"%d_%d" % kk: x for kk, x in val.items()}},
@@ -573,9 +658,7 @@ def search_peval(ck, c, res_s):
                 continue
             for w in G.sample_interval(r[2], r[3], ck.rng, k=3):
                 if G.in_result(res, b + w, v2) is False:
-                    dropped = (r[2] != 0 or r[3] != 0)
-                    ck.violation(key_of("partial_eval_with_range:" + ("offsets-dropped" if dropped else "unexpected"),
-                                        c),
+                    report(ck, "partial_eval_with_range:unexpected", c,
                                  {"call": "IndexRange.partial_eval_with_range(var, rng)", "self": r, "var": list(var),
                                   "rng": g, "returned": res_s, "value": b + w,
                                   "valuation": {"%d_%d" % kk: x for kk, x in v2.items()}},
@@ -674,7 +757,7 @@ def search_user(ck, c, r):
     if found:
         f = found[0]
         path = f[4]
-        shadow = not names_unique(path)
+        shadow = names_clash_syms(tree_syms(tree) + [tuple(z) for z in r.get("sizes", [])])
         replay = {"call": "exo.stdlib.range_analysis.%s" % ("infer_range" if f[0] == "infer" else "bounds_inference"),
                   "source": c.get("src"), "tree": tree, "names": r.get("names"), "access_index": f[1], "value": f[2],
                   "returned": r["infer"][f[1]] if f[0] == "infer" else r["bounds"],
@@ -683,10 +766,9 @@ def search_user(ck, c, r):
             cls = "infer_range:shadowed-name" if shadow else "infer_range:unexpected"
             what = "infer_range returned %s but the index takes the value %d" % (replay["returned"], f[2])
         else:
-            cls = "bounds_inference:join" if f[5] else ("bounds_inference:shadowed-name" if shadow
-                                                        else "bounds_inference:unexpected")
+            cls = "bounds_inference:shadowed-name" if shadow else "bounds_inference:unexpected"
             what = "bounds_inference returned %s but an access has index %d" % (replay["returned"], f[2])
-        ck.violation(key_of(cls, c), replay, what)
+        report(ck, cls, c, replay, what)
         return
     ck.stream("search:user")["cases"] += 1
     ck.stream("search:user")["agree"] += 1
@@ -694,8 +776,9 @@ def search_user(ck, c, r):
 
 # ============================================================================= main
 def run(ck):
-    # known findings proposed by this engine (to be moved into /verif/known_findings.json by the lead)
-    have = {f.get("id") for f in ck.known}
+    # OPEN findings of this engine that are not (yet) listed in /verif/known_findings.json; a no-op as soon as
+    # the lead has added them there (then c13_findings.py and these two lines can be deleted)
+    have = {f.get("id") for f in common.load_known().get("findings", [])}
     ck.known.extend(f for f in c13_findings.FINDINGS if f["id"] not in have)
 
     # ---- 1. translator, proofs, extraction
@@ -716,7 +799,9 @@ def run(ck):
         return evidence(ck, gen_ok, build_ok, ext_ok)
     jobs, slots = [], []
     for c, r in zip(cases, impl):
-        if c["kind"] == "user":
+        if c["kind"] == "fold":
+            slots.append(None)
+        elif c["kind"] == "user":
             if isinstance(r, dict) and "tree" in r and "infer" in r:
                 js, accs = user_jobs(r["tree"])
                 slots.append((len(jobs), len(js)))
@@ -732,6 +817,9 @@ def run(ck):
                              "the extracted model could not be built/run; correspondence not established")
     for c, r, sl in zip(cases, impl, slots):
         st = c["_stream"]
+        if c["kind"] == "fold":
+            ck.case(st, c["src"], True, None, tag="fold")
+            continue
         if c["kind"] == "user":
             if sl is None:
                 ck.case(st, json.dumps(c.get("tree", c.get("src"))), False, None, tag="rejected")
@@ -770,7 +858,7 @@ def run(ck):
     # ---- 3. failing-input search against the REAL implementation (oracle: integer arithmetic)
     for c, r in zip(cases, impl):
         k, st = c["kind"], c["_stream"]
-        if st == "analyze":
+        if st in ("analyze", "analyze_small"):
             search_analyze(ck, c, r)
         elif k in ("check", "checks"):
             search_check(ck, c, r)
@@ -780,11 +868,23 @@ def run(ck):
             search_join(ck, c, r)
         elif k == "peval":
             search_peval(ck, c, r)
+        elif k == "fold":
+            if r != c["expect"]:
+                report(ck, "fold", c, {"call": "resize_dim(p, p.find('x: _'), 0, size, 0, fold=True)", "source": c["src"],
+                                       "size": c["size"], "returned": r, "expected": c["expect"]},
+                       "buffer folding is %s for a procedure whose accesses overlap after folding" % r)
+            else:
+                ck.stream("search:fold")["cases"] += 1
+                ck.stream("search:fold")["agree"] += 1
         elif k == "user" and isinstance(r, dict) and "tree" in r and "infer" in r:
             search_user(ck, c, r)
     for st, s in sorted(ck.streams.items()):
         if st.startswith("search:"):
             ck.log("%-26s cases without a failing valuation: %d" % (st, s["cases"]))
+    ck.cov["search_failing_inputs_by_class"] = dict(HITS)
+    ck.cov["search_analyze_evaluations"] = EVALS[0]
+    ck.log("search: failing inputs by class (known findings included): %s; analyze evaluations %d"
+           % (dict(HITS), EVALS[0]))
     return evidence(ck, gen_ok, build_ok, ext_ok)
 
 
@@ -840,5 +940,11 @@ def evidence(ck, gen_ok, build_ok, ext_ok):
         "size arguments are >= 1 (exo's size type) for the fast-mode initialisation (1, None)",
         "only index-typed expressions built from Read/Const/USub/BinOp are modelled (StrideExpr, ReadConfig "
         "make the real analysis assert False)",
+        "C13_join, C13_user_level_named and C13_bounds_inference_partial assume that equally named symbols have equal "
+        "values (name_determined); without it they are refuted (open findings C13-join-name-only, "
+        "C13-user-shadowed-name)",
+        "C13_partial_eval assumes the IndexRange class invariant lin(base): a linear combination of variables without a "
+        "constant term (get_coeff's docstring); C13_analysis_bases_linear proves the analysis establishes it for every "
+        "expression without `/` (with `/` in the base get_stride_of raises and no range is returned)",
         "the hand-written model agrees with the Python only as far as sampled (see correspondence counts)",
     ]
